@@ -72,13 +72,13 @@ deriving Repr, Inhabited
 
 /-- answers of the consumer SPIs, in call order -/
 inductive Spi where
-  /-- `RequestNewBlockProposal` returned this block; `cancelDuring`: while the call was running the
-  harness did what the main loop does on an election trigger for the node's current position
-  (`CancelOlderThan (height, view+1)`).  Whether `ctx.Err() != nil` afterwards is *computed* from
-  the registry model. -/
-  | proposal (b : Block) (cancelDuring : Bool)
-  /-- `ValidateBlockProposal` verdict; `cancelDuring` as above -/
-  | verdict (ok : Bool) (cancelDuring : Bool)
+  /-- `RequestNewBlockProposal` returned this block; `cancelAt = some v`: while the call was running
+  the main loop handled an election trigger of this height, i.e. `CancelOlderThan (height, v)` ran
+  (v = current view + 1 for the current view's trigger, smaller for a late trigger of an older view).
+  Whether `ctx.Err() != nil` afterwards is *computed* from the registry model. -/
+  | proposal (b : Block) (cancelAt : Option Nat)
+  /-- `ValidateBlockProposal` verdict; `cancelAt` as above -/
+  | verdict (ok : Bool) (cancelAt : Option Nat)
 deriving Repr, Inhabited
 
 inductive Out where
@@ -134,12 +134,11 @@ def ctxFor (w : W) (h v : Nat) : W × Option Nat :=
 /-- `ctx.Err() != nil` -/
 def ctxDone (w : W) (id : Nat) : Bool := Contexts.done w.n.reg id
 
-/-- what the harness does when an SPI answer says "cancelled meanwhile": the main loop's reaction
-to an election trigger for the node's current (height, view) -/
-def cancelMeanwhile (w : W) (cancelled : Bool) : W :=
-  if cancelled then
-    { w with n := { w.n with reg := (Contexts.step w.n.reg (.cancelOlderThan ⟨w.n.cfg.height, wrap64 (w.n.view + 1)⟩)).1 } }
-  else w
+/-- the main loop's reaction to an election trigger of this height, running concurrently with an SPI call -/
+def cancelMeanwhile (w : W) (cancelAt : Option Nat) : W :=
+  match cancelAt with
+  | some v => { w with n := { w.n with reg := (Contexts.step w.n.reg (.cancelOlderThan ⟨w.n.cfg.height, v⟩)).1 } }
+  | none => w
 
 def mySig (c : Cfg) : SSig := ⟨c.me, true⟩
 
